@@ -18,7 +18,7 @@ class PoolDecorator(Pool):
         self.target = target
 
     @classmethod
-    def s(cls: Type[C], *args, **kwargs) -> Partial[C]:
+    def s(cls: Type[C], /, *args, **kwargs) -> Partial[C]:
         """
         Create an unbound prototype of this class, partially applying arguments
 
